@@ -221,8 +221,8 @@ def c16():
         R("c16-mh-phase2-from-x0", "C16", MCMC, "    samples = _mh_sample(logpfcn, x, pparams, nsamples, step_size, True)", "    samples = _mh_sample(logpfcn, x0, pparams, nsamples, step_size, True)", ["C16-S", "C16-U"]),
         R("c16-mh-counts-swapped", "C16", MCMC, "    x, dtype, device = _mh_sample(logpfcn, x0, pparams, nburnout, step_size, False)\n    samples = _mh_sample(logpfcn, x, pparams, nsamples, step_size, True)",
           "    x, dtype, device = _mh_sample(logpfcn, x0, pparams, nsamples, step_size, False)\n    samples = _mh_sample(logpfcn, x, pparams, nburnout, step_size, True)", "C16-S"),
-        R("c16-loop-one-short", "C16", MCMC, "    for i in range(nsamples):\n        x = custom_step(x, *pparams)", "    for i in range(nsamples - 1):\n        x = custom_step(x, *pparams)", "C16-N"),
-        R("c16-store-shifted", "C16", MCMC, "        if collect_samples:\n            samples[i] = x\n\n    # return the samples", "        if collect_samples:\n            samples[i - 1] = x\n\n    # return the samples", "C16-N"),
+        R("c16-loop-one-short", "C16", MCMC, "    for i in range(nsamples):\n        x = custom_step(x, *pparams)", "    for i in range(nsamples - 1):\n        x = custom_step(x, *pparams)", ["C16-N", "C16-S"]),
+        R("c16-store-shifted", "C16", MCMC, "        if collect_samples:\n            samples[i] = x\n\n    # return the samples", "        if collect_samples:\n            samples[i - 1] = x\n\n    # return the samples", ["C16-N", "C16-S"]),
         R("c16-integrate-misaligned", "C16", MCQ, "    for x, w in zip(xsamples, wsamples):\n        res = res + ffcn(x, *fparams) * w", "    for x, w in zip(xsamples, wsamples.flip(0)):\n        res = res + ffcn(x, *fparams) * w", "C16-W"),
         R("c16-forward-always-samples", "C16", MCQ, "        if xsamples is None:\n            methods = {", "        if True:\n            methods = {", "C16-B"),
         R("c16-backward-drops-weights", "C16", MCQ, "                           wsamples=wsamples,\n", "                           wsamples=None,\n", "C16-B"),
